@@ -615,6 +615,8 @@ def static_locals(F, functions=None):
 
 def check(F, run, tier):
     S = Summaries(F)
+    from . import c20 as _c20
+    run.add(_c20.clm_extension_strip(F, S))
     from ..rules_archive import cstring_obligations
     cstring_obligations(F, S, run)
     run.declined = DECLINED
